@@ -27,25 +27,48 @@ Qed.
 Lemma attr_faithful_survives r : attr_faithful r = true -> attr_survives r = true.
 Proof. destruct r; simpl; congruence. Qed.
 
+Lemma row_faithful_survives h : row_faithful h = true -> forallb (fun ar => attr_survives (snd ar)) (hk_attrs h) = true.
+Proof.
+  unfold row_faithful. intros H. apply andb_true_iff in H as [H _]. rewrite forallb_forall in *.
+  intros ar Har. apply attr_faithful_survives. now apply H.
+Qed.
+
 Lemma hooks_faithful_survive hooks : hooks_faithful hooks = true -> hooks_survive hooks = true.
 Proof.
-  unfold hooks_faithful, hooks_survive. intros H. apply andb_true_iff in H as [H _].
-  rewrite forallb_forall in *. intros h Hh. specialize (H h Hh). rewrite forallb_forall in *.
-  intros ar Har. apply attr_faithful_survives. now apply H.
+  unfold hooks_faithful, hooks_survive. rewrite !forallb_forall. intros H h Hh. apply row_faithful_survives. now apply H.
+Qed.
+
+Lemma hooks_faithful_models hooks : hooks_faithful hooks = true -> models_faithful (models_restore hooks) = true.
+Proof.
+  induction hooks as [|h t IH]; simpl; [reflexivity|]. intros H. apply andb_true_iff in H as [Hh Ht].
+  unfold row_faithful in Hh. apply andb_true_iff in Hh as [_ Hm].
+  destruct (String.eqb (hk_class h) "ModelGroup"); [exact Hm|now apply IH].
+Qed.
+
+Lemma hooks_faithful_applied hooks pk : hooks_faithful hooks = true -> hooks_faithful (hooks_applied hooks pk) = true.
+Proof.
+  unfold hooks_applied, hooks_faithful. destruct pk; [trivial|]. rewrite !forallb_forall. intros H h Hh.
+  apply filter_In in Hh as [Hh _]. now apply H.
 Qed.
 
 (* faithful hooks: whatever the transport, the worker's pipeline is the caller's *)
 Lemma worker_models_faithful hooks :
   hooks_faithful hooks = true -> forall pk ms, worker_models hooks pk ms = Some ms.
 Proof.
-  intros H pk ms. unfold worker_models. destruct pk; simpl; [|reflexivity].
-  rewrite (hooks_faithful_survive hooks H). apply restore_models_faithful.
-  unfold hooks_faithful in H. now apply andb_true_iff in H as [_ H].
+  intros H pk ms. unfold worker_models. pose proof (hooks_faithful_applied hooks pk H) as Ha.
+  rewrite (hooks_faithful_survive _ Ha). apply restore_models_faithful. now apply hooks_faithful_models.
 Qed.
 
-(* without pickle nothing depends on the hooks *)
-Lemma worker_models_direct hooks ms : worker_models hooks false ms = Some ms.
-Proof. reflexivity. Qed.
+(* a class with a __deepcopy__ of its own: its hooks play no part in a deep copy *)
+Lemma worker_models_direct hooks ms :
+  forallb hk_deepcopy hooks = true -> worker_models hooks false ms = Some ms.
+Proof.
+  intros H. unfold worker_models, hooks_applied.
+  assert (E : filter (fun h => negb (hk_deepcopy h)) hooks = []).
+  { induction hooks as [|h t IH]; simpl in *; [reflexivity|]. apply andb_true_iff in H as [Hh Ht].
+    rewrite Hh. simpl. now apply IH. }
+  rewrite E. reflexivity.
+Qed.
 
 (* ------------------------------------------------------------------ a definition that forgets `enabled` *)
 
